@@ -15,7 +15,9 @@ Sub-checks (every point of each finite lattice is evaluated, nothing is sampled)
 A *valid* configuration whose constructor raises is counted (obs "unconstructible:<text>",
 trivial point), not reported: the property speaks about the filters of a bank that exists.
 """
+import functools
 import math
+import warnings
 
 import numpy as np
 
@@ -40,6 +42,18 @@ CLASSNAME = {"tri": "TriangularOverlappingFilterBank", "fbank": "Fbank",
 SCALES = ("mel", "bark", "linear", "octave")
 TRI_WIDTHS = (8, 31, 64, 257, 512)
 IR_CAP = {"quick": 6000, "thorough": 40000}
+
+
+def quiet(fn):
+    """the library computes NaN supports for some flag combinations and numpy warns about it on
+    stderr; the oracles look at the values themselves"""
+    @functools.wraps(fn)
+    def wrapped(*a, **k):
+        with warnings.catch_warnings():
+            warnings.simplefilter("ignore", RuntimeWarning)
+            with np.errstate(all="ignore"):
+                return fn(*a, **k)
+    return wrapped
 
 
 def eps():
@@ -135,6 +149,7 @@ def documented_span(b, lay, i):
 # ---------------------------------------------------------------- layout
 
 
+@quiet
 def _layout(b):
     r = build(b)
     if r[0] != "ok":
@@ -184,6 +199,7 @@ def _layout(b):
 # ---------------------------------------------------------------- triangle
 
 
+@quiet
 def _triangle(b):
     r = build(b)
     if r[0] != "ok":
@@ -261,7 +277,7 @@ def measure_ir(bank, b, i, lo, hi, cap):
     gap = max(16, (neg + pos) // 8)
     width = pos + gap + neg
     if width > cap:
-        return "too_long"
+        return ("skip", "too_long")
     r = computers.call(bank.get_impulse_response, i, width)
     if r[0] != "ok":
         return r
@@ -271,11 +287,12 @@ def measure_ir(bank, b, i, lo, hi, cap):
     peak = float(np.max(np.abs(h)))
     guard = float(np.max(np.abs(h[pos:width - neg])))
     if not peak > 0 or guard > 1e-6 * peak:
-        return "unresolved"
+        return ("skip", "unresolved")
     nneg = width - (pos + gap // 2)
-    return h, ref.unwrap_times(width, nneg)
+    return ("ir", h, ref.unwrap_times(width, nneg))
 
 
+@quiet
 def _response(pt, cap):
     b = pt
     r = build(b)
@@ -349,14 +366,14 @@ def _response(pt, cap):
 
         # ---- route 2: DTFT of the impulse response in a wide buffer
         m = measure_ir(bank, b, i, lo, hi, cap)
-        if isinstance(m, str):
-            notes.add("ir_" + m)
+        if m[0] == "skip":
+            notes.add("ir_" + m[1])
             continue
         if m[0] == "exc":
             bad("exception", "get_impulse_response(%d, wide) raised %s: %s" % (i, m[1], m[2]), i,
                 exc=m[1], route="impulse")
             continue
-        h, t = m
+        _, h, t = m
         step = (hi - lo) / 64.0
         grid = [c + j * step for j in range(-8, 9)]
         H = np.abs(ref.dtft(h, t, [c, lo, hi] + grid, rate))
@@ -419,6 +436,7 @@ def reject_points(tier):
     return pts
 
 
+@quiet
 def _reject(p):
     b = dict(name=p["name"], num_filts=p["num_filts"], sampling_rate=p["sampling_rate"],
              low_hz=p["low_hz"], high_hz=p["high_hz"])
